@@ -1,6 +1,8 @@
 // Copyright (c) Microsoft Corporation
 // SPDX-License-Identifier: MIT
 fn main() {
+    // verification hooks are guarded by this cfg; declare it so that normal builds stay warning-free
+    println!("cargo::rustc-check-cfg=cfg(azure_guestproxyagent_verif)");
     #[cfg(windows)]
     {
         static_vcruntime::metabuild();
